@@ -198,6 +198,10 @@ func (c *concretiser) respDirectives(a *Ans) []directive {
 			ds = append(ds, directive{"no-cache", `"X-Secret"`, true})
 			continue
 		}
+		if f == "no-cache" && a.Ncf == 2 { // a validator is among the named fields
+			ds = append(ds, directive{"no-cache", `"ETag, X-Secret"`, true})
+			continue
+		}
 		ds = append(ds, directive{name: f})
 	}
 	if a.Ma != None {
